@@ -55,7 +55,7 @@ def known_findings():
 
 
 class Run:
-    def __init__(self, pid, tier, seed, level="model_checking"):
+    def __init__(self, pid, tier, seed, level="model_checking", keep_replays=False):
         self.pid, self.tier, self.seed, self.level = pid, tier, seed, level
         self.t0 = time.time()
         self.work = tempfile.mkdtemp(prefix="verif-%s-" % pid)
@@ -63,7 +63,7 @@ class Run:
         os.makedirs(self.outdir, exist_ok=True)
         os.makedirs(EVIDENCE, exist_ok=True)
         for f in os.listdir(self.outdir):           # replay files of an earlier run with the same tier and seed
-            if f.startswith("replay-%s-%d-" % (tier, seed)):
+            if f.startswith("replay-%s-%d-" % (tier, seed)) and not keep_replays:
                 os.unlink(os.path.join(self.outdir, f))
         self.violations = []      # dicts with 'replay'
         self.known_hits = {}      # key -> text
@@ -362,7 +362,7 @@ class Run:
     def violation(self, what, detail):
         """Record a violation observed on the real code; writes the replay file."""
         n = len(self.violations) + 1
-        path = os.path.join(self.outdir, "replay-%s-%d-%d.json" % (self.tier, self.seed, n))
+        path = os.path.join(self.outdir, "replay-%s%s-%d-%d.json" % ("re" if getattr(self, "replay_mode", False) else "", self.tier, self.seed, n))
         detail = dict(detail)
         detail.update({"property": self.pid, "what": what, "tier": self.tier, "seed": self.seed})
         json.dump(detail, open(path, "w"), indent=1, default=str)
@@ -396,7 +396,9 @@ def main_wrapper(fn, pid, level="model_checking"):
     ap.add_argument("--replay", default=None)
     ap.add_argument("--seed", type=int, default=int(os.environ.get("VERIF_SEED", "1")))
     args = ap.parse_args(sys.argv[2:])
-    run = Run(pid, args.tier, args.seed, level)
+    run = Run(pid, args.tier, args.seed, level, keep_replays=bool(args.replay))
+    if args.replay:
+        run.replay_mode = True
     try:
         fn(run, args)
         rc = run.finish()
